@@ -21,7 +21,15 @@ that TLC proves equal to the single steps (RunAgrees); send bursts of MaxCount+4
 256 (thorough: 65536).  The alphabet clause is judged PER POSITION: for code lengths 1..40 (quick: 11
 of them incl. 9, 10, 11, 20, 33) and for the generators over 5 alphabets and lengths 1, 7, 33, 70 the
 harness logs, per position, the set of characters seen in 45*|alphabet| draws; every set must be the
-whole alphabet (false-alarm probability < 1e-12 per run)."""
+whole alphabet (false-alarm probability < 1e-12 per run).
+
+Audit 2: degenerate strings (empty area / phone / both, empty code and hash, empty alphabet with
+length 0, one-character alphabets), lengths around the powers of two for code lengths, phones, areas
+and generator outputs (7..257, 1023..4097); the gateway returns every sentinel error either side
+knows (vcode's own seven, cache, tex, context, io, grpc statuses; plain and wrapped); twins are also
+built on DIFFERENT configurations and interleaved call by call; the generators are called back to
+back A, B, A with equal-size disjoint alphabets and equal lengths, then with random alphabets and
+lengths, every output logged."""
 
 
 def _s(codes):
